@@ -73,8 +73,14 @@ fn gen_value(ctx: &Ctx, t: usize, k: u64, salt: u64) -> TVal {
 }
 
 fn case_json(t: usize, wp: WP, x: &TVal, extra: Value) -> Value {
-    json!({"corpus": case().corpus, "config": case().config, "target": case().targets[t].name, "target_idx": t, "wp": wp.name(), "tt": x.tt() as u8,
-           "value_binary_hex": hex(&encode(Proto::Binary, x)), "value": x.render(200), "extra": extra})
+    let mut j = json!({"corpus": case().corpus, "config": case().config, "target": case().targets[t].name, "target_idx": t, "wp": wp.name(), "tt": x.tt() as u8,
+           "value_binary_hex": hex(&encode(Proto::Binary, x)), "value": x.render(200), "extra": extra});
+    if case().keep && arg_fastpath_target(t) {
+        // see `viol`: can this input reach the recorded argument-type decoder defect at all?
+        j["fastpath_reachable"] = json!(sem::fastpath_reachable_in(&case().schema, &case().targets[t].shape, x, false));
+        j["fastpath_reachable_filled"] = json!(sem::fastpath_reachable_in(&case().schema, &case().targets[t].shape, x, true));
+    }
+    j
 }
 
 fn viol(frag: &mut Frag, prop: &str, key: &str, what: String, case: Value) {
@@ -93,7 +99,14 @@ fn viol(frag: &mut Frag, prop: &str, key: &str, what: String, case: Value) {
         if let Some(t) = case.get("target_idx").and_then(|v| v.as_u64()) {
             // (the async decoders do not have that code)
             let async_only = matches!(prop, "c09" | "c19") && key.contains("async_");
-            if !async_only && arg_fastpath_target(t as usize) {
+            // checks whose inputs are well-formed values: an input in which no instance of an
+            // argument type carries all of its declared fields never reaches that exit on the
+            // unchanged generator, so what it shows is something else and keeps its own key
+            // (C08 / C13 decode the reference encoding of the case's value; the other checks also
+            // decode pilota's own output, in which every non-optional field is present)
+            let flag = if matches!(prop, "c08" | "c13") { "fastpath_reachable" } else { "fastpath_reachable_filled" };
+            let cannot_reach = matches!(prop, "c02" | "c08" | "c11" | "c13" | "c20") && case.get(flag) == Some(&Value::Bool(false));
+            if !async_only && !cannot_reach && arg_fastpath_target(t as usize) {
                 frag.violation(&format!("{}|keep|arg-type-decoder-takes-rest-of-buffer", prop), &format!("[{}] {}", key, what), case);
                 return;
             }
@@ -855,6 +868,7 @@ fn c09_one(ctx: &Ctx, t: usize, k: u64, frag: &mut Frag) {
                 }
                 let who = format!("gen.{}{}", if is_async { "async_" } else { "" }, wp.name());
                 ord += 1;
+                monitors::driver::checkpoint_violations(frag);
                 if !monitors::driver::sub_mark_n(ord, &format!("c09 {} {} {} kind={} {}", who, tname(t), f.desc, f.kind, hex(&f.bytes[..f.bytes.len().min(80)]))) {
                     continue;
                 }
@@ -921,6 +935,7 @@ fn c19_one(ctx: &Ctx, t: usize, k: u64, frag: &mut Frag) {
                 }
                 let who = format!("{}{}", if is_async { "async_" } else { "" }, wp.name());
                 ord += 1;
+                monitors::driver::checkpoint_violations(frag);
                 if !monitors::driver::sub_mark_n(ord, &format!("c19 {} {} {} {}", who, tname(t), f.desc, hex(&f.bytes[..f.bytes.len().min(80)]))) {
                     continue;
                 }
@@ -961,6 +976,14 @@ fn c19_one(ctx: &Ctx, t: usize, k: u64, frag: &mut Frag) {
                 frag.distinct(fnv1a(format!("{}|{}|{}|{}", who, f.kind, f.at, tname(t)).as_bytes()));
                 if l3 != l1 {
                     let per = (l3 - l1) / 2;
+                    // the recorded list defect needs a failing element k >= 1: a strict prefix of the
+                    // encoding of a value in which no list of heap-owning elements has two elements
+                    // cannot show it, so a leak there is something else and keeps its own key
+                    let via = if via == "type-with-list-of-heap-owning-elements" && f.strict_prefix && !sem::value_has_heap_list_ge2(&c.schema, &c.targets[t].shape, &x, c.keep) {
+                        "prefix-of-a-value-without-two-elements-in-a-list-of-heap-owning-elements"
+                    } else {
+                        via
+                    };
                     viol(
                         frag,
                         "c19",
@@ -978,6 +1001,7 @@ fn c19_one(ctx: &Ctx, t: usize, k: u64, frag: &mut Frag) {
         // count after the first third is compared with the count at the end.
         if !soak.is_empty() {
             ord += 1;
+            monitors::driver::checkpoint_violations(frag);
             if monitors::driver::sub_mark_n(ord, &format!("c19 soak {} {}", wp.name(), tname(t))) {
                 let rounds = 450usize;
                 let mut mid = 0isize;
@@ -1010,7 +1034,7 @@ fn c19_one(ctx: &Ctx, t: usize, k: u64, frag: &mut Frag) {
     }
 }
 
-const FAULT_BASES_QUICK: u64 = 2;
+const FAULT_BASES_QUICK: u64 = 5;
 const FAULT_BASES_THOROUGH: u64 = 24;
 
 macro_rules! fault_cases {
